@@ -1,8 +1,8 @@
 package main
 
 import (
-	"reflect"
 	"fmt"
+	"reflect"
 	"strings"
 
 	"github.com/moov-io/iso8583/field"
@@ -220,7 +220,11 @@ func init() {
 				}
 				ops = append(ops, op("setval", I(id), genValue(r, g.nodes[id])))
 			}
-			m, _ := func() (mm interface{}, err error) { defer func() { recover() }(); a, _ := msgFromOps(g.term, ops); return a, nil }()
+			m, _ := func() (mm interface{}, err error) {
+				defer func() { recover() }()
+				a, _ := msgFromOps(g.term, ops)
+				return a, nil
+			}()
 			if m == nil {
 				continue
 			}
@@ -232,7 +236,7 @@ func init() {
 			// byte ranges from the lengths of the separately packed elements
 			type rng struct {
 				id, start, end int
-				val           string
+				val            string
 			}
 			var ranges []rng
 			pos := 0
